@@ -59,6 +59,11 @@ def run_config(v, ctx, tftpd, tier, combo, rng):
     odd_missing = ["M" * 300 + ".bin", "exist_short.bin/child.bin", "sub/" + "N" * 260, "sub/in_sub.bin/x/y.bin", "nodir/missing.bin"]
     reqs += [("RRQ", t, o) for t in odd_missing for o in ("none", "all")]
     must_keep = [("RRQ", t, "none") for t in odd_missing[:3]]
+    # names of existing files spelled with a trailing separator / dot component: they name no file, so the reply is not
+    # specified - but without --overwrite (or read-only) nothing on disk may change
+    trailing = [t + suf for t in ("exist_short.bin", "sub/in_sub.bin", "exist_empty.bin") for suf in ("/", "/.", "//", "\\")]
+    reqs += [("WRQ-TRAILING", t, "none") for t in trailing] + [("WRQ-TRAILING", trailing[0], "all")]
+    must_keep += [("WRQ-TRAILING", t, "none") for t in trailing[:5]]
     # requests that must be refused whatever their options say: also with an out-of-range option value
     bad = [(kind, t, o) for kind in ("RRQ", "WRQ") for t in targets for o in BAD_OPTSETS]
     rng.shuffle(bad)
@@ -92,7 +97,33 @@ def run_config(v, ctx, tftpd, tier, combo, rng):
                 s.settimeout(2.0)
             replay["client_endpoint"] = "fresh" if own_socket else f"reused {s.getsockname()[1]}"
             try:
-                if kind == "RRQ":
+                if kind == "WRQ-TRAILING":
+                    newc = N.keyed_content(f"trail-{cfgname}-{seqno}", 900)
+                    # one short block, sent only if the request is accepted; nothing is retried (an accepted request
+                    # whose file cannot be created simply goes unanswered)
+                    tr = N.Transfer()
+                    s.settimeout(0.6)
+                    s.sendto(N.enc_req(N.WRQ, target, options=tuple((k, (len(newc) if k == "tsize" else val)) for k, val in opts)), srv.addr)
+                    k1, f1, src1 = N.recv(s, tr)
+                    tr.first = (k1, f1, src1)
+                    if k1 in ("ACK", "OACK"):
+                        s.sendto(N.enc_data(1, newc[:300]), src1)
+                        N.recv(s, tr)
+                    s.settimeout(2.0)
+                    __import__("time").sleep(0.05)
+                    diff = N.snap_diff(before, N.snapshot(sb["root"]))
+                    state, expect = "existing+trailing-separator", "no-effect" if (ro or not ow) else "unspecified"
+                    if diff and (ro or not ow):
+                        v.violation("C06/trailing-separator-fs-effect", f"{cfgname}: WRQ {target!r} (an existing file spelled with a trailing separator; overwrite off) changed the filesystem: {diff[:3]} (first reply {tr.first and tr.first[0]})", replay)
+                    elif diff:
+                        # overwrite mode: follow the filesystem so that the model stays in step
+                        for rel in list(recv_files):
+                            pth = os.path.join(sb["rcv"], rel)
+                            if os.path.isfile(pth):
+                                recv_files[rel] = open(pth, "rb").read()
+                            else:
+                                recv_files.pop(rel, None)
+                elif kind == "RRQ":
                     state = "existing" if target in send_files else "missing"
                     tr = N.download(srv.addr, target, opts, sock=s)
                     if state == "missing" and tr.first and tr.first[0] is None:
